@@ -134,3 +134,17 @@ func VerifHarness_C14_Len1001() { c14Boundary(1001) }
 // F4: symbolic bytes framed by ordinary letters, so that whitespace / control bytes are interior
 func VerifHarness_C14_Framed3() { c14Body("a" + verifString("q", 3) + "b") }
 func VerifHarness_C14_Framed4() { c14Body("a" + verifString("q", 4) + "b") }
+
+// the limit is 1000 bytes, also for multi-byte characters
+func VerifHarness_C14_RepeatRunes() {
+	r := []string{"я", "日", "é", "😀"}[verifIntRange("rune", 0, 3)]
+	n := (1000 / len(r)) + verifIntRange("extra", 0, 1) // the longest that fits, or one more
+	q := ""
+	for i := 0; i < n; i++ {
+		q += r
+	}
+	if len(q) <= 1000 && verifBool("pad") && len(q)+1 <= 1001 {
+		q += "a" // 1000 or 1001 bytes with a one-byte tail
+	}
+	c14Body(q)
+}
